@@ -57,6 +57,13 @@ def check_program(h, m, ctor, arr, hits, out, fops='', getdel=None, reset=None):
     except HarnessDied as e:
         out.append(crash_violation(e, case))
         return
+    if len(m.body_sig()) > 255:
+        # a body whose signature exceeds the protocol's 255 bytes cannot be a message: the construction API has to refuse it
+        # (cleanly: no abort, nothing half-marshalled handed out)
+        hits['over-long-signature-refused'] = hits.get('over-long-signature-refused', 0) + 1
+        if not r.startswith('ERR'):
+            out.append(Violation('invalid-serialisation', 'signature-too-long', 'a body with a %d-byte signature was built and marshalled: %s' % (len(m.body_sig()), r[:120]), case))
+        return
     if r.startswith('ERR'):
         out.append(Violation('build-failed', r.split()[1] if len(r.split()) > 1 else 'err', 'construction API refused a well-typed program: %s' % r, case))
         return
@@ -211,6 +218,11 @@ def programs(tier):
         # of fixed-size values, arrays of strings / object paths / signatures; at most 8 arguments)
         if body and len(body) <= 8 and all(_flat(v[0]) for v in body):
             yield ('g', 'v', (R.MT_CALL, 0, 7, list(call_fields), body))
+    # bodies at and just beyond the 255-byte signature limit (flat, and as one struct)
+    for n_ in (254, 255, 256, 300):
+        yield ('g', 'i', (R.MT_CALL, 0, 7, list(call_fields), [(b'y', k % 251) for k in range(n_)]))
+    for n_ in (252, 253, 254, 255):
+        yield ('g', 'i', (R.MT_CALL, 0, 7, list(call_fields), [R.ST(*[(b'y', k % 251) for k in range(n_)])]))
     for body in varargs_bodies():
         yield ('g', 'v', (R.MT_SIGNAL, 0, 9, [(R.F_PATH, (b'o', b'/a')), (R.F_INTERFACE, (b's', b'a.b')), (R.F_MEMBER, (b's', b'S'))], body))
     # header programs: setters are called in the fixed order path, iface, member, dest, errname, sender, cinst, rserial
